@@ -834,5 +834,48 @@ def rule_r8(ctx) -> RuleResult:
     return rr
 
 
+_CMP_OPS = {"=": ast.Eq, "!=": ast.NotEq, "<>": ast.NotEq, ">": ast.Gt, "<": ast.Lt, ">=": ast.GtE, "<=": ast.LtE}
+
+
+def rule_r9(ctx) -> RuleResult:
+    """The comparison operators of #expr are exact and mutually consistent (`a = b` iff neither `a < b` nor `a > b`): each
+    entry of the comparison table applies the one Python comparison its key names to its two operands.  A tolerance
+    (`math.isclose`, `abs(x - y) < eps`) makes distinct values equal -- `100000000000 = 100000000001` -- and `=` stops agreeing
+    with `<`, `>` and subtraction (seed C18-9A)."""
+    from ..core.index import LambdaRef
+
+    rr = RuleResult("C18.R9", "every #expr comparison operator applies exactly the comparison its key names", min_instances=7)
+    tb = ctx.index.consts("parserfns").get("binary_cmp_fns")
+    if not isinstance(tb, dict) or not tb:
+        raise AnalysisError("binary_cmp_fns not foldable")
+    for op, v in tb.items():
+        if op not in _CMP_OPS:
+            raise AnalysisError("binary_cmp_fns: operator {!r} not known to the rule".format(op))
+        if not isinstance(v, LambdaRef):
+            raise AnalysisError("binary_cmp_fns[{!r}] is not a lambda (not decided)".format(op))
+        lam = v.node
+        ps = [a.arg for a in lam.args.args]
+        body = lam.body
+        if isinstance(body, ast.Call) and unparse(body.func) in ("int", "bool") and len(body.args) == 1:
+            body = body.args[0]
+        elif isinstance(body, ast.IfExp) and unparse(body.body) == "1" and unparse(body.orelse) == "0":
+            body = body.test
+        tol = [c for c in ast.walk(lam.body) if isinstance(c, ast.Call) and (unparse(c.func).endswith("isclose") or unparse(c.func) == "abs" or unparse(c.func) == "round")]
+        if tol:
+            rr.bad(Finding("C18.R9", PFN, "parserfns.binary_cmp_fns", "binary_cmp_fns[{!r}] = {}".format(op, unparse(lam)[:60]),
+                           "the operator compares with a tolerance / after rounding (`{}`): distinct numerals whose difference is below the "
+                           "tolerance compare equal, and `=` no longer agrees with `<`, `>` and `-`".format(unparse(tol[0])[:40]), lam.lineno))
+            continue
+        if isinstance(body, ast.Compare) and len(body.ops) == 1 and len(ps) == 2 and unparse(body.left) == ps[0] and unparse(body.comparators[0]) == ps[1]:
+            if isinstance(body.ops[0], _CMP_OPS[op]):
+                rr.ok("parserfns.binary_cmp_fns", "{!r}: {}".format(op, unparse(body)), {"operator": op, "body": unparse(body)})
+            else:
+                rr.bad(Finding("C18.R9", PFN, "parserfns.binary_cmp_fns", "binary_cmp_fns[{!r}] = {}".format(op, unparse(lam)[:60]),
+                               "the entry for `{}` applies `{}`".format(op, unparse(body)), lam.lineno))
+        else:
+            raise AnalysisError("binary_cmp_fns[{!r}]: body `{}` not recognised".format(op, unparse(lam.body)[:50]))
+    return rr
+
+
 def run(ctx) -> list:
-    return [rule_r1(ctx), rule_r2(ctx), rule_r3(ctx), rule_r4(ctx), rule_r5(ctx), rule_r6(ctx), rule_r7(ctx), rule_r8(ctx)]
+    return [rule_r1(ctx), rule_r2(ctx), rule_r3(ctx), rule_r4(ctx), rule_r5(ctx), rule_r6(ctx), rule_r7(ctx), rule_r8(ctx), rule_r9(ctx)]
